@@ -455,6 +455,10 @@ def boundary_programs(rng):
         for n in (0, 1, 255, 256, 257, 258, 1000):
             progs.append(([nat(n), nat(x), P('LSL')], [('nat',)]))
             progs.append(([nat(n), nat(x), P('LSR')], [('nat',)]))
+    # corpus: the recorded open finding (MAP over an empty collection keeps the source type) — run first in every tier, so that the
+    # KNOWN-FINDING line does not depend on the seed
+    progs.append(([P('NIL', P('timestamp')), P('MAP', [P('DROP'), P('PUSH', P('int'), I(0))]), P('PUSH', P('int'), I(1)), P('CONS')], [('list', ('int',))]))
+    progs.append(([P('EMPTY_MAP', P('int'), P('nat')), P('MAP', [P('DROP'), P('PUSH', P('string'), {'string': ''})])], [('map', ('int',), ('string',))]))
     return [(code, st, gen_env(rng)) for code, st in progs]
 
 
